@@ -5,6 +5,7 @@ package srv
 import (
 	"bytes"
 	"encoding/hex"
+	"fmt"
 	"net"
 
 	"github.com/coredhcp/coredhcp/handler"
@@ -28,6 +29,60 @@ type A4Case struct {
 	// Listener: bound (to the 6-byte-MAC interface) | unbound (request arrives on that interface) | unbound-other (arrives on another index)
 	Listener string `json:"listener"`
 	CHAddr   string `json:"chaddr"`
+	// IfSel selects which of the interfaces with a 6-byte hardware address the listener is
+	// bound to / the request arrives on
+	IfSel int `json:"ifsel,omitempty"`
+}
+
+// A4Seq is a sequence of rows handled one after the other by the same server process: state
+// left behind by one datagram (a cached interface, a reused buffer) must not leak into the next
+type A4Seq struct {
+	Rows []A4Case `json:"rows"`
+}
+
+// GenA4Seq draws a sequence biased to the link-level row on varying interfaces
+func GenA4Seq(t *rapid.T) A4Seq {
+	var s A4Seq
+	n := rapid.IntRange(2, 5).Draw(t, "nrows")
+	for i := 0; i < n; i++ {
+		c := GenA4(t)
+		if rapid.IntRange(0, 2).Draw(t, "l2row") > 0 {
+			c.GIAddr, c.CIAddr, c.Broadcast = "", "", false
+			if c.Action == "nak" {
+				c.Action = "addr"
+			}
+		}
+		if c.Listener == "unbound-other" && rapid.Bool().Draw(t, "existing-if") {
+			c.Listener = "unbound"
+		}
+		c.IfSel = rapid.IntRange(0, 3).Draw(t, "ifsel")
+		s.Rows = append(s.Rows, c)
+	}
+	return s
+}
+
+// ExecA4Seq runs the rows in order
+func ExecA4Seq(s A4Seq) (res core.Result) {
+	seen := map[int]bool{}
+	for i, c := range s.Rows {
+		r := ExecA4(c)
+		if r.Skipped != "" {
+			return r
+		}
+		if r.Viol != nil {
+			r.Viol.Message = fmt.Sprintf("row %d of a sequence of %d: %s", i, len(s.Rows), r.Viol.Message)
+			return r
+		}
+		res.Classes = append(res.Classes, r.Classes...)
+		if c.Listener != "unbound-other" {
+			seen[c.IfSel%max(1, len(l2List()))] = true
+		}
+	}
+	res.NonTrivial = len(seen) >= 2
+	if res.NonTrivial {
+		res.Classes = append(res.Classes, "seq:several-interfaces")
+	}
+	return
 }
 
 var addrKinds = []string{"", "192.0.2.7", "10.10.10.200", "169.254.7.9", "255.255.255.255"}
@@ -80,10 +135,15 @@ func EnumA4() []A4Case {
 
 // ExecA4 checks one row
 func ExecA4(c A4Case) (res core.Result) {
-	l2, other := ifaces()
-	if l2 == nil {
+	_, other := ifaces()
+	all := l2List()
+	if len(all) == 0 {
 		res.Skipped = "no-interface-with-6-byte-mac"
 		return
+	}
+	l2 := all[c.IfSel%len(all)]
+	if other != nil && other.Index == l2.Index {
+		other = all[(c.IfSel+1)%len(all)]
 	}
 	act := func(req, resp *dhcpv4.DHCPv4) (*dhcpv4.DHCPv4, bool) {
 		switch c.Action {
